@@ -665,7 +665,7 @@ def run_e1(prop, tier, seed, modules, rule, bounds, assumptions, need_stubbing=F
     if flt:
         import re as _re
         modules = [m for m in modules if _re.search(flt, m.cfgid)]
-    harness_timeout = harness_timeout or (120 if tier == 'quick' else 600)
+    harness_timeout = harness_timeout or (300 if tier == 'quick' else 900)
     tag = f'{prop.lower()}{crate_tag}'
     gen_only = os.environ.get('VERIF_GEN_ONLY')
     if gen_only:
